@@ -870,6 +870,30 @@ def dyn_class_batch(rng):
     pm._MATCHER_CACHE.clear()
 
 
+def str_kinds_batch(rng):
+    """"a quoted regex matches at the start of str(value)" for values that are strings of a special kind: members of a
+    (str, Enum) class (str(v) = 'Vis.PUBLIC', payload 'pub') and instances of a str subclass with its own __str__"""
+    SK, Vis, Marked = zoo_c08.StrKinds, zoo_c08.Vis, zoo_c08.Marked
+    nodes = [SK(vis=Vis.PUBLIC, anyv=Marked("ab"), plain="pub"), SK(vis=Vis.PRIVATE, anyv=Marked(""), plain="Vis.PUBLIC"),
+             SK(vis=Vis.PUBLIC, anyv="<ab", plain="<ab>"), SK(vis=Vis.PRIVATE, anyv=Vis.PUBLIC, plain="ab")]
+    root = zoo.Tup(tuple(nodes))
+    toks = zoo.Tokens()
+    orgs = zoo.OrgTable()
+    tree = zoo.enc_tree(root, toks, orgs)
+    env = [zoo.class_table() + [zoo_c08.class_row(SK)], orgs.sexp(), [A("nonnode")] + NONNODE, [A("tree"), tree]]
+    cfg = zoo_c08.pick_config(rng)
+    texts = ['(StrKinds @vis="pub")', '(StrKinds @vis="Vis")', '(* @vis="Vis\\.PUBLIC$" -> v)', '(* @vis="p")', '(* @vis="priv$")',
+             '(StrKinds @anyv="<ab>")', '(StrKinds @anyv="ab")', '(StrKinds @anyv="<")', '(* @anyv="Vis" -> a)', '(* @anyv="pub")',
+             '(* @plain="pub" @vis="Vis")']      # ($variables across these kinds: == of a str-enum member and its payload is a don't-care)
+    for t in rng.sample(texts, 6):
+        for node in nodes:
+            pm._MATCHER_CACHE.clear()
+            with zoo_c08.configured(cfg):
+                real, _ = obs_match(t, node, toks)
+            yield Case("pmatch_str_kinds", dumps([A("pmatch")] + env + [[A("text"), t], [A("node"), toks.tok(node)]]), real, True,
+                       f"pattern={t!r} node=#{toks.tok(node)}={zoo.show(node)} [config: {cfg}]", sig="pmatch|str-kinds")
+
+
 def cases(rng: random.Random, tier: str):
     yield from fixed_cases()
     n = 230 if tier == "quick" else 5000
@@ -881,3 +905,5 @@ def cases(rng: random.Random, tier: str):
             yield from empty_seq_batch(rng)
         if i % 10 == 2:
             yield from dyn_class_batch(rng)
+        if i % 10 == 5:
+            yield from str_kinds_batch(rng)
